@@ -115,9 +115,10 @@ CHECKS = {
              "receives exactly the events it receives without pyccolo, each through the same one of its functions. The model is tied to tracer.py and "
              "to the interpreter by rebuilding the frame tree of 90 real runs from a plain recorder's log and comparing model logs with the handler / "
              "third-party logs observed under pyccolo; the oracle also compares program results, exception call chains and sys.gettrace() afterwards, "
-             "including third-party functions installed mid-run by user code.",
+             "including third-party functions installed mid-run by user code and histories of sys.settrace(A) / sys.settrace(B) / sys.settrace(None) calls made by the "
+             "program between its statements (logs of A and B and sys.gettrace() afterwards equal the run without pyccolo).",
         note="Trusted: Coq kernel + vm_compute; the transcription of trace_trampoline (validated by the correspondence itself); hand transcription of "
-             "_sys_tracer/_make_composed_tracer; harness. Mid-run installation and program results are decided by the oracle, not by a theorem; handlers are observing.",
+             "_sys_tracer/_make_composed_tracer; harness. Mid-run installation / uninstallation histories and program results are decided by the oracle, not by a theorem; handlers are observing.",
         ref="DESIGN.md section 7 C09"),
     "C10": dict(
         technique="Coq-verified erasure certificate (guard branches must agree) + theorem characterising the guard rule + runs under guard schedules",
@@ -187,7 +188,7 @@ CHECKS = {
         technique="Coq proof (list/association reasoning over the scaffold of tracer.exec) on a transcribed model + in-coqc correspondence + function-body reference oracle",
         text="C15_result_partial (the returned mapping, the caller's mapping and globals equal those of running the program's bindings as a function body), "
              "C15_raises and C15_clean (no internal name in result / caller's mapping / globals, finishing or raising) are Qed-closed for every supplied "
-             "mapping and every sequence of local/global bindings and deletions over ordinary identifiers; C15_result_refuted is the recorded finding "
+             "mapping and every sequence of local/global bindings and deletions over ordinary identifiers (the runs use plain, underscore- and dunder-prefixed, upper-case, `_` and non-ASCII names); C15_result_refuted is the recorded finding "
              "(`builtins` / `__` bound by the program are dropped). Tied to tracer.py by 400 generated programs x mappings x {instrumented, not, "
              "NoopTracer}; the oracle runs the same text as a function body in plain Python and also compares eval with the built-in eval.",
         note="Trusted: Coq kernel + vm_compute; the abstraction of a straight-line program as its binding operations (CPython's function-local scoping "
@@ -197,8 +198,9 @@ CHECKS = {
         technique="Coq proof (induction over behaviour trees: invariant on the two switches and running-handler depth) + in-coqc correspondence with handlers that run instrumented code",
         text="C16_depth (every handler invocation made while another handler runs is opted in: region switch on, or tracer allows re-entrant events and "
              "handler registered reentrant), C16_restore/C16_resume (both switches as before after any emission/region/try, also on propagated raises) are "
-             "Qed-closed for all finite behaviour trees and all sequences of top-level emissions. Tied to emit_event.py/tracer.py by 300 generated trees "
-             "executed by real handlers that pyc.exec instrumented code, comparing invocation log (depth, occurrence), raises and switches.",
+             "Qed-closed for all finite behaviour trees and all sequences of top-level statements (emissions, regions, try blocks). Tied to emit_event.py/tracer.py by 300 generated trees "
+             "executed by real handlers that pyc.exec instrumented code, comparing invocation log (depth, occurrence), raises and switches; an 'escape' profile makes propagated "
+             "handler exceptions leave nested emissions and regions and be caught by a running handler or at top level, which goes on to run instrumented code.",
         note="Trusted: Coq kernel + vm_compute; hand transcription of the switch handling and gating (validated by correspondence); harness. Single thread.",
         ref="DESIGN.md section 7 C16"),
     "C17": dict(
@@ -207,10 +209,15 @@ CHECKS = {
              "_emit_event/_emit_tracer_loop) the main thread's deliveries, switches and progress equal those under the schedule with all other threads' "
              "steps removed; C17_workers: worker emissions reach only multi-thread tracers. Both are stated for gen/Switches.v, regenerated from emit_event.py "
              "on every run (module globals vs threading.local): they only type-check while the switches are per-thread. C17_shared_switches_refuted keeps "
-             "the 27-step witness of the defect that was fixed. Tied to the code by replaying 60 schedules on the real emit_event.py with a sys.settrace "
-             "scheduler that parks threads before each modelled statement, and 80 behaviour trees run inside a worker thread (model/Reent.v).",
+             "the 27-step witness of the defect that was fixed. C17_replaced_statements (model/Thunk.v): for every schedule over the two halves of replaced statements "
+             "(before_stmt emission / exec of the saved value), every multi-thread flag assignment and top tracer, each thread does what it does alone and none fails; stated "
+             "over thunk_shared / thunk_store_all regenerated from tracer.py and emit_event.py; C17_shared_slot_refuted keeps the witnesses of the two repaired defects. "
+             "Tied to the code by replaying 60 schedules on the real emit_event.py with a sys.settrace "
+             "scheduler that parks threads before each modelled statement, 80 schedules of replaced statements (threads parked inside the truth test of the emitted value), "
+             "80 behaviour trees run inside a worker thread (model/Reent.v), and 60 line-level schedules (every line of emit_event.py a scheduling point, nested emissions; "
+             "oracle: every thread's deliveries equal those of the thread alone).",
         note="Trusted: Coq kernel + vm_compute; translator gen_switches.py; GIL statement-level atomicity is modelled, not verified; the settrace scheduler; "
-             "handlers are observing and thread-safe themselves.",
+             "handlers are observing and thread-safe themselves. Each half of a replaced statement is one atomic step of model/Thunk.v; the line-level schedules are an oracle, not a theorem.",
         ref="DESIGN.md section 7 C17"),
     "C18": dict(
         technique="Coq proof (nested tree induction over the ordered list of table writes of the bookkeeping visitor) + in-coqc correspondence on every node of exported pristine trees + lexical oracle",
@@ -219,10 +226,13 @@ CHECKS = {
              "current statement) are Qed-closed for every tree in which statements only sit in list fields. model/Book.v is tied to ast_bookkeeping.py by "
              "exporting the pristine copy of 120+ instrumented programs (hand-written edge cases + generated, several per tracer) and comparing "
              "containing_stmt / parent_stmt / containing_ast of every node; the oracle recomputes nearest/parent statements and the is_outer_stmt / "
-             "is_initial_frame_stmt classifications (with and without exclusion sets) from ast.parse(source).",
+             "is_initial_frame_stmt classifications (with and without exclusion sets) from ast.parse(source). C18_history (model/BookHist.v): for every history of "
+             "instrumentations (whole modules and single functions, any paths, collection on or off) whose new nodes are live objects not yet in the tables, every "
+             "bookkeeper whose code can still run has all its ids in the tables and its lines in the line table of its module; stated over book_remove_first regenerated "
+             "from AstRewriter.visit; C18_remove_after_add_refuted keeps the witness for the other order. Tied by 100 real histories (K-hist).",
         note="Trusted: Coq kernel + vm_compute; hand transcription (validated by correspondence); the exporter that canonicalises ids to traversal "
-             "indices and leaves out CPython's shared singleton nodes (Load, Add, ...). Outer-statement classification and liveness of entries after "
-             "later instrumentations are decided by the oracle, not by a theorem.",
+             "indices and leaves out CPython's shared singleton nodes (Load, Add, ...); translator gen_book.py. Outer-statement classification is decided by the oracle, "
+             "not by a theorem; the history theorem assumes ids are not reused within a history (checked on every real history).",
         ref="DESIGN.md section 7 C18"),
     "C19": dict(
         technique="Coq proof (a decorated call is a nest of enabled contexts of the context machine: state restored from any reachable state, returning or raising; delivery to exactly the decorator's tracers; code selection lemma) + real module files decorated and called, compared with the original function and with the same function instrumented through exec",
